@@ -314,6 +314,18 @@ theorem nested_default_binder_example :
       (.opDot .orderby (.ident ".") (.neg (.ident ".")))) = .ok (.data (V.mkSet [V.mkArr [.num 3, .num 2, .num 1]])) :=
   ⟨rfl, rfl⟩
 
+/-- `Value.Negate` as the model pins it: a number is negated arithmetically, `(@neg: x)` is `x`, a set `s` becomes
+`(@neg: s)`; so `-` is not an involution on `(@neg: n)`: `let w = (@neg: 2); - -w` is `-2` (= `-(-w)`), not `w` -/
+theorem negate_semantics (n : Int) (x : V) (xs : List V) :
+    negV (.data (.num n)) = mkNum (-n) ∧
+    negV (.data (.tup [("@neg", x)])) = .ok (.data x) ∧
+    negV (.data (.set xs)) = .ok (.data (.tup [("@neg", .set xs)])) ∧
+    Impl.run 0 (.let_ (.ident "w") (.coll .tup (.cons "@neg" .nil (.num 2) .nil)) (.neg (.neg (.ident "w"))))
+      = .ok (.data (.num (-2))) ∧
+    Impl.run 0 (.let_ (.ident "w") (.coll .tup (.cons "@neg" .nil (.num 2) .nil)) (.neg (.paren (.neg (.ident "w")))))
+      = .ok (.data (.num (-2))) :=
+  ⟨rfl, rfl, rfl, rfl, rfl⟩
+
 /-! ### layer 2: the precedence tower is the documented one -/
 
 /-- the `>`-separated alternatives of rule `expr` regenerated from syntax/arrai.wbnf are the documented
